@@ -429,9 +429,20 @@ def run_one(params: dict, chooser, deviations=True) -> dict:
                 other.connect_init(60000, 'P')
                 world.run_default_until_idle()
 
-            def relay():
-                server.send(ConnectToPeer.Response('bob', typ, PEER_IP, 5000, 777, False, 0, 0))
-            world.post(EnvEvent('inject', 'connect-to-peer', relay, chan=None))
+            if params.get('user_call'):
+                # the connection is being opened by a call of the application (not by a ConnectToPeer request, whose
+                # tasks the network tracks and cancels)
+                async def user_connect():
+                    try:
+                        c = await network.create_peer_connection('bob', typ, ip=PEER_IP, port=5000, obfuscate=False)
+                    except Exception as exc:
+                        return type(exc).__name__
+                    return c.state.name
+                world.op('w', 'create_peer_connection', user_connect)
+            else:
+                def relay():
+                    server.send(ConnectToPeer.Response('bob', typ, PEER_IP, 5000, 777, False, 0, 0))
+                world.post(EnvEvent('inject', 'connect-to-peer', relay, chan=None))
 
             async def netdisc():
                 await network.disconnect()
@@ -540,6 +551,7 @@ def scenarios(tier: str):
         for typ in ('P', 'F'):
             for est in (False, True, 'silent'):
                 out.append({'kind': 'netdisc', 'connect': outcome, 'typ': typ, 'established': est})
+            out.append({'kind': 'netdisc', 'connect': outcome, 'typ': typ, 'established': False, 'user_call': True})
     for outcome in ('ok', 'refuse', 'hang'):
         endings = ['disc1', 'eof', 'reset', 'rtimeout', 'wstall'] if outcome == 'ok' else ['none']
         for ending in endings:
